@@ -1036,7 +1036,7 @@ func (fr *Frame) enterLoop(li *loopInfo, pre *State) *State {
 		fr.env[phi] = fx.havocVal(phi.Name()+"_h", phi.Type(), hs)
 		li.phiVals[phi] = fr.env[phi]
 	}
-	fx.frameAssumption(hs)
+	fx.frameAssumption(hs, pre)
 	li.hdrSt = hs.clone()
 	// 4. assume invariants
 	for _, c := range fr.autoInvs(li) {
